@@ -169,6 +169,9 @@ func avcExpectedPPS(tr *nalgen.AVCPPSTree) avc.PPS {
 func avcComparePPS(tr *nalgen.AVCPPSTree, got *avc.PPS, ctx string) *harness.Fail {
 	want := avcExpectedPPS(tr)
 	g := *got
+	if f := avcPPSFeature(tr); f != "" {
+		ctx += "; PPS" + f
+	}
 	if !tr.TailPresent {
 		want.SecondChromaQpIndexOffset, g.SecondChromaQpIndexOffset = 0, 0
 	}
@@ -188,7 +191,7 @@ func avcParseSets(spsT []nalgen.AVCSPSTree, ppsT []nalgen.AVCPPSTree) (map[uint3
 		ctx := fmt.Sprintf("sps[%d] %x", i, nalu)
 		got, err := avc.ParseSPSNALUnit(nalu, true)
 		if err != nil {
-			return nil, nil, nil, nil, harness.Failf("C15|avc.ParseSPSNALUnit|error on valid SPS", "%v (%s)", err, ctx)
+			return nil, nil, nil, nil, harness.Failf("C15|avc.ParseSPSNALUnit|error on valid SPS"+avcSPSFeature(&spsT[i]), "%v (%s)", err, ctx)
 		}
 		if f := avcCompareSPS(&spsT[i], info, got, true, ctx); f != nil {
 			return nil, nil, nil, nil, f
@@ -206,7 +209,7 @@ func avcParseSets(spsT []nalgen.AVCSPSTree, ppsT []nalgen.AVCPPSTree) (map[uint3
 		ctx := fmt.Sprintf("pps[%d] %x (pps id %d -> sps id %d)", i, nalu, ppsT[i].P.PicParameterSetID, ppsT[i].P.SeqParameterSetID)
 		got, err := avc.ParsePPSNALUnit(nalu, spsMap)
 		if err != nil {
-			return nil, nil, nil, nil, harness.Failf("C15|avc.ParsePPSNALUnit|error on valid PPS", "%v (%s)", err, ctx)
+			return nil, nil, nil, nil, harness.Failf("C15|avc.ParsePPSNALUnit|error on valid PPS"+avcPPSFeature(&ppsT[i]), "%v (%s)", err, ctx)
 		}
 		if f := avcComparePPS(&ppsT[i], got, ctx); f != nil {
 			return nil, nil, nil, nil, f
@@ -214,6 +217,18 @@ func avcParseSets(spsT []nalgen.AVCSPSTree, ppsT []nalgen.AVCPPSTree) (map[uint3
 		ppsMap[got.PicParameterSetID] = got
 	}
 	return spsMap, ppsMap, spsN, ppsN, nil
+}
+
+// avcPPSFeature names the rarely used syntax a PPS contains (part of the key when the parser rejects the PPS).
+func avcPPSFeature(tr *nalgen.AVCPPSTree) string {
+	f := ""
+	if tr.P.NumSliceGroupsMinus1 > 0 {
+		f += fmt.Sprintf(" with slice_group_map_type %d", tr.P.SliceGroupMapType)
+	}
+	if tr.TailPresent && tr.P.PicScalingMatrixPresentFlag && !tr.P.Transform8x8ModeFlag {
+		f += " with pic_scaling_matrix_present_flag=1 and transform_8x8_mode_flag=0"
+	}
+	return f
 }
 
 func checkAVCPPS(c avcPPSCase) *harness.Fail {
